@@ -5,7 +5,7 @@ ids="$@"; [ -z "$ids" ] && ids="C10 C19 C17 C15 C20 C09 C08 C11 C12 C14 C16 C13 
 cd "$(dirname "$0")/.."
 for id in $ids; do
   s=$(date +%s)
-  out=$(VERIF_SEED=$seed timeout 3600 ./run_check $id --tier thorough 2>&1); rc=$?
+  out=$(VERIF_SEED=$seed timeout ${CAP:-3600} ./run_check $id --tier thorough 2>&1); rc=$?
   e=$(date +%s)
   echo "$id rc=$rc $((e-s))s :: $(echo "$out" | grep -c '^VIOLATION') violations, $(echo "$out" | grep -c '^KNOWN-FINDING') known :: $(echo "$out" | tail -1 | cut -c1-200)"
   echo "$out" | grep -A2 '^VIOLATION\|CHECK-ERROR' | head -12
